@@ -66,12 +66,14 @@ def build(e, V, variant):
         return or_(build(e[1], V, variant), build(e[2], V, variant))
     if k == "not":
         return not_(build(e[1], V, variant))
-    if k in ("exists", "forall"):
-        # every quantifier occurrence binds its own variable (alpha-renaming): a fresh let over the same domain
+    if k == "exists":
+        # transparent at set level: its variables are the query's variables
+        return exists(V[e[1]], build(e[2], V, variant))
+    if k == "forall":
+        # every universal quantifier binds its own variable (alpha-renaming): a fresh let over the same domain
         W = dict(V)
         W[e[1]] = V["__fresh__"](e[1])
-        body = build(e[2], W, variant)
-        return exists(W[e[1]], body) if k == "exists" else for_all(W[e[1]], body)
+        return for_all(W[e[1]], build(e[2], W, variant))
     raise ValueError(e)
 
 
